@@ -50,10 +50,13 @@ def odd_sizes_model(rng):
     xi = g.inp((1, i))
     outs.append(g.fc(xi, u, bias=bool(rng.random() < 0.5)))
   outs.append(g.tanh(x))
-  if rng.random() < 0.4:
-    e = g.const('empty', np.zeros((0,), dtype=np.float32))
-    outs.append(g.concat([outs[0], g.reshape(e, [1, 0])], 1))
-    outs.pop(0)
+  if rng.random() < 0.5:
+    # 1-3 zero-length constants (each with its own, empty-vector buffer)
+    y = outs.pop(0)
+    for _ in range(int(rng.integers(1, 4))):
+      e = g.const('empty', np.zeros((0,), dtype=np.float32))
+      y = g.concat([y, g.reshape(e, [1, 0])], 1)
+    outs.append(y)
   g.finish(outs, 'serving_default')
   return models._spec(b, [g], 'odd_sizes')
 
@@ -92,6 +95,12 @@ def compare(ctx, small, large, base):
     if bs.DataIsNone():
       if off or size:
         ctx.violation('empty_buffer_has_offset', f, dict(base, buffer=i, offset=off, size=size))
+      continue
+    if len(emb) == 0:
+      # zero-length constant: it selects no bytes; (0, 0) or any in-bounds offset with size 0 is the same content
+      ctx.count('zero_length_buffers')
+      if size != 0 or off > len(large):
+        ctx.violation('zero_length_buffer_selects_bytes', f, dict(base, buffer=i, offset=off, size=size))
       continue
     n_data += 1
     ctx.count('size_mod16:%d' % (len(emb) % 16))
